@@ -2,8 +2,9 @@
 
 Case line (harness/h_C14.cpp, ocaml/C14/driver.ml):
   sugar <kind> <depth> <name> <N> <mintext|-> <maxtext|-> <opts|-> <init> <ops> <minconv|-> <maxconv|->
-    kind    P F I O OE T S1 S5 S16 AI AF AO AT PA PS   (OE: rOption on a scoped-enum field;
-            PA/PS: the two ports rParams generates)
+    kind    P F I O OE T S1 S5 S16 AI AF AO AT PA PS CO ATM   (OE: rOption on a scoped-enum field;
+            PA/PS: the two ports rParams generates; CO: rCOptionCb(getcode, setcode) with a counting setter,
+            init "value,setter invocations"; ATM: rArrayTCbMember, init/state = (other member, member) per element)
     depth   0: the port is dispatched at the root, 1: below the rRecur port "sub/"
     opts    k=symbol,...        (the ":map k\\0=symbol" entries, in order)
     init    initial field contents (16 elements for the array kinds, hex buffer for S*)
@@ -27,7 +28,8 @@ HARNESS = ["h_C14.cpp"]
 # backing arrays and an all-other-fields-zero check.
 VARIANT = "plain"
 RULE = ("every macro-generated parameter kind (rParam/char, rParamF, rParamI, rOption on int and on scoped-enum fields, rToggle, rString of "
-        "length 1/5/16, rArrayI, rArrayF, rArrayOption, rArrayT, both ports of rParams) with run-time names "
+        "length 1/5/16, rArrayI, rArrayF, rArrayOption, rArrayT, both ports of rParams, rCOptionCb over a counting setter, "
+        "rArrayTCbMember on a struct array) with run-time names "
         "(with and without digits), array lengths 1..16, dispatched at the root or below rRecur; declared "
         "min/max absent / negative / fractional (float kinds) / type extremes; initial contents arbitrary "
         "(also outside the range); 1..12 sets and queries per case with incoming values in range, at and "
@@ -49,7 +51,10 @@ ASSUMPTIONS = ["declared ranges are non-empty (min <= max) and representable in 
                "one argument per set message, of a type the port's specification lists"]
 
 SCALAR_NUM = ("P", "F", "I", "O")
-ARRAYS = ("AI", "AF", "AO", "AT", "PA")
+ARRAYS = ("AI", "AF", "AO", "AT", "PA", "ATM")
+TOGGLES = ("T", "AT", "ATM")
+# the port's own argument types an undo event may carry (the alternatives of its "::spec" that hold a number)
+OWN_TAGS = {"P": "c", "F": "f", "I": "i", "O": "ic", "OE": "ic", "CO": "ic", "AI": "i", "AF": "f", "AO": "ic", "PA": "i"}
 STRLEN = {"S1": 1, "S5": 5, "S16": 16}
 BACK = 16
 INT_MIN, INT_MAX = -2**31, 2**31 - 1
@@ -104,7 +109,7 @@ FTEXT = ["-1.5", "2.5", "0", "1", "-1", "0.1", "-0.1", "0.5", "1e-3", "100", "-1
 
 def gen_case(rng, dist):
     kind = rng.choice(["P", "P", "F", "F", "F", "I", "I", "O", "O", "OE", "T", "S1", "S5", "S16",
-                       "AI", "AI", "AF", "AF", "AO", "AO", "AT", "PA", "PS"])
+                       "AI", "AI", "AF", "AF", "AO", "AO", "AT", "PA", "PS", "CO", "CO", "ATM"])
     depth = rng.choice([0, 0, 1])
     name = rng.choice(NAMES)
     N = rng.choice([1, 2, 3, 4, 5, 7, 8, 10, 11, 15, 16, rng.randint(1, 16)]) if kind in ARRAYS else 0
@@ -129,7 +134,7 @@ def gen_case(rng, dist):
         mx = None if rng.random() < 0.2 else b
         mnc = None if mn is None else "%08x" % f32_bits(float(mn))
         mxc = None if mx is None else "%08x" % f32_bits(float(mx))
-    elif kind in ("O", "OE", "AO"):
+    elif kind in ("O", "OE", "AO", "CO"):
         n = rng.randint(1, 8)
         style = rng.random()
         if style < 0.6:
@@ -193,14 +198,14 @@ def gen_case(rng, dist):
             return "i%d" % rng.choice(int_pool(INT_MIN, INT_MAX))
         if kind in ("F", "AF"):
             return "f%08x" % rng.choice(flt_pool())
-        if kind in ("O", "OE", "AO"):
+        if kind in ("O", "OE", "AO", "CO"):
             r = rng.random()
             if r < 0.4:
                 return "S" + rng.choice(opts)[1].encode().hex()
             if r < 0.8:
                 return "i%d" % rng.choice(int_pool(INT_MIN, INT_MAX) + [k for k, _ in opts])
             return "c%d" % rng.choice(int_pool(-128, 127) + [k for k, _ in opts if -128 <= k <= 127])
-        if kind in ("T", "AT"):
+        if kind in TOGGLES:
             return rng.choice("TF")
         L = STRLEN[kind]
         n = rng.choice([0, 1, L - 2, L - 1, L, L + 1, 2 * L, rng.randint(0, 2 * L + 2)])
@@ -210,7 +215,7 @@ def gen_case(rng, dist):
     def rand_init_elem():
         if kind in ("P", "AI", "PA", "PS"):
             return str(rng.choice(int_pool(-128, 127)))
-        if kind in ("I", "O", "OE", "AO"):
+        if kind in ("I", "O", "OE", "AO", "CO"):
             return str(rng.choice(int_pool(INT_MIN, INT_MAX)))
         if kind in ("F", "AF"):
             return "%08x" % rng.choice(flt_pool())
@@ -221,6 +226,11 @@ def gen_case(rng, dist):
         n = rng.randint(0, L - 1)
         buf = [rng.choice([65, 98, 49, 200]) for _ in range(n)] + [0] + [rng.choice([0, 0, 77]) for _ in range(L - n - 1)]
         init = hx(buf)
+    elif kind == "ATM":
+        # the struct array flattened: (another member, the toggled member) per element
+        init = ",".join("%d,%d" % (rng.choice([0, 1, -1, 77, INT_MIN, INT_MAX]), rng.randint(0, 1)) for _ in range(BACK))
+    elif kind == "CO":
+        init = "%s,%d" % (rand_init_elem(), rng.choice([0, 0, 1, 5, 1000]))       # value, setter invocations so far
     elif kind in ARRAYS or kind == "PS":
         init = ",".join(rand_init_elem() for _ in range(BACK))
     else:
@@ -283,6 +293,11 @@ class Store:
             self.vals = [int(x, 16) for x in f[8].split(",")]
         else:
             self.vals = [int(x) for x in f[8].split(",")]
+        self.sets = 0
+        if k == "CO":
+            self.vals, self.sets = self.vals[:1], self.vals[1]
+        if k == "ATM":
+            self.others, self.vals = self.vals[0::2], self.vals[1::2]
 
     def value_text(self, v):
         if self.kind in STRLEN:
@@ -302,7 +317,7 @@ class Store:
         """the value a set must store, from the declared bounds"""
         k = self.kind
         t, v = tv[0], tv[1:]
-        if k in ("T", "AT"):
+        if k in TOGGLES:
             return 1 if t == "T" else 0
         if k in STRLEN:
             s = b"" if v == "-" else bytes.fromhex(v)
@@ -361,7 +376,7 @@ def spec_check(case, impl):
     ops = f[9].split(";")
     if len(pieces) != len(ops):
         return "format: %d answers for %d ops" % (len(pieces), len(ops))
-    numeric = k in ("P", "F", "I", "O", "OE", "AI", "AF", "AO", "PA")
+    numeric = k in OWN_TAGS
     for n, (op, piece) in enumerate(zip(ops, pieces)):
         body = op[1:]
         idxt, _, tv = body.partition("=")
@@ -388,7 +403,7 @@ def spec_check(case, impl):
                 want = bytes((v & 255) for v in st.vals).hex()
                 if vals != [want]:
                     return "query: op %d: replied %s, stored %s" % (n, vals, want)
-            elif k in ("T", "AT"):
+            elif k in TOGGLES:
                 if types != ("T" if st.vals[elem] else "F"):
                     return "query: op %d: replied %s, stored %d" % (n, types, st.vals[elem])
             else:
@@ -396,6 +411,7 @@ def spec_check(case, impl):
                     return "query: op %d: replied %s, stored %s" % (n, vals, st.value_text(st.vals[elem]))
             continue
         # a set
+        st.sets += 1
         old = st.vals[elem]
         new = st.clamp(tv)
         if new is None:
@@ -412,7 +428,7 @@ def spec_check(case, impl):
         for rb, path, types, vals in bc:
             if path != loc:
                 return "broadcast: op %d: broadcast at %s, the port's address is %s" % (n, path, loc)
-            if k in ("T", "AT"):
+            if k in TOGGLES:
                 if types != ("T" if new else "F"):
                     return "broadcast: op %d: broadcast %s, stored %d" % (n, types, new)
             elif vals != [newtxt]:
@@ -426,6 +442,13 @@ def spec_check(case, impl):
             if got != want:
                 return "undo: op %d: undo events %s, expected %s (old %s, stored %s)" % (
                     n, got, want, st.value_text(old), newtxt)
+            # the event carries both values with the port's own argument type: the set-messages an undo
+            # history builds from it ("<address> ,<t> <value>") must be accepted by this port again
+            for m in un:
+                ty = m[2]
+                if len(ty) != 3 or ty[0] != "s" or ty[1] != ty[2] or ty[1] not in OWN_TAGS[k]:
+                    return ("undo-type: op %d: the undo event has type tags %r; a port of kind %s takes ',%s' - the event's "
+                            "values would not reach the port again" % (n, ty, k, "' or ',".join(OWN_TAGS[k])))
     # final contents: the clamped / truncated / translated values, nothing else touched
     if k in STRLEN:
         got = bytes.fromhex(final).split(b"\0")[0]
@@ -435,12 +458,19 @@ def spec_check(case, impl):
             return "string: stored %s, expected %s" % (got.hex(), st.vals[0].split(b"\0")[0].hex())
     else:
         want = ",".join(st.value_text(v) for v in st.vals)
+        if k == "CO":
+            # rCOptionCb: setcode runs once for every set message
+            want += ",%d" % st.sets
+        if k == "ATM":
+            want = ",".join("%d,%d" % ov for ov in zip(st.others, st.vals))
         if final != want:
             cls = "frame" if (k in ARRAYS or k == "PS") else "clamp"
             gl, wl = final.split(","), want.split(",")
             if cls == "frame" and len(gl) == len(wl):
                 # the element(s) written by the ops vs. the untouched ones
                 touched = {int(o[1:].partition("=")[0]) for o in ops if o[0] == "s" and int(o[1:].partition("=")[0]) < st.N}
+                if k == "ATM":
+                    touched = {2 * i + 1 for i in touched}
                 if all(gl[i] == wl[i] for i in range(len(gl)) if i not in touched):
                     cls = "clamp"
             return "%s: final contents %s, expected %s" % (cls, final, want)
@@ -479,7 +509,9 @@ TECHNIQUE = ("Coq proofs (case analysis per callback, induction over the address
              "against the real macro-generated callbacks dispatched through Ports::dispatch")
 LEVEL_TEXT = ("For every port environment, address, stored value, incoming value and message history the model's callbacks "
               "store the clamped value, answer queries purely, broadcast the stored value, emit exactly one undo event "
-              "(address, previous, new) iff the value changed, touch only the addressed array element, truncate strings and "
+              "(address, previous, new) iff the value changed - carrying the port's own argument type, so that the event's old / new "
+              "value messages dispatched to the port restore / re-store the value (C14_undo_event_replays) -, touch only the "
+              "addressed array element, truncate strings and "
               "translate known symbols (theorems of Properties_C14.v). The model is tied to the code on every run by running "
               "both on the same generated ports and message sequences and comparing every emitted message and the object.")
 LEVEL_NOTE = ("Trusted: Coq kernel, extraction (ExtrOcamlBasic), OCaml driver, harness, generator, Python's atoi/atof stand-ins. "
